@@ -976,3 +976,26 @@ Lemma ex_take_then_drop : hp_trace w_one_sub cfg_take_then_drop =
   [ESub HSessNamed 1; EOp Take true; EHook PtLludp 0 None; EAck; EOp Drop true; ELog true true true 0]
   /\ hp_status w_one_sub cfg_take_then_drop = StForward.
 Proof. vm_compute. split; reflexivity. Qed.
+
+(* a take() that fails in its copy step claims nothing: a subscriber (wait_for / subscribe_async with
+   take=True) whose take() raises, and an addon that catches the failure and goes on - the message
+   is still forwarded exactly once, nothing is dropped or acked *)
+Definition cfg_failed_takes : msgcfg :=
+  mk_msgcfg KPlain true true [(1, (PTrue, Act false TakeFail (Ret true)))]
+            [mk_modcfg [] (mk_hookset None (Some (Act true TakeFail (Act false Mutate (Ret false)))) None)].
+
+Lemma ex_failed_takes : cfg_unclaimed cfg_failed_takes = true /\
+  hp_trace w_one_sub cfg_failed_takes =
+  [ESub HSessNamed 1; EOp TakeFail false; EExcSub;
+   EHook PtLludp 0 None; EOp TakeFail false; EOp Mutate true; ELog false false false 1; EOrig 1]
+  /\ hp_status w_one_sub cfg_failed_takes = StForward
+  /\ hp_world w_one_sub cfg_failed_takes = w_one_sub.
+Proof. vm_compute. repeat split. Qed.
+
+Lemma ex_failed_takes_calm :
+  calm_cfg cfg_failed_takes =
+  mk_msgcfg KPlain true true [(1, (PTrue, Ret false))]
+            [mk_modcfg [] (mk_hookset None (Some (Act false Mutate (Ret false))) None)]
+  /\ strip_exc (hp_trace w_one_sub (calm_cfg cfg_failed_takes)) = strip_exc (hp_trace w_one_sub cfg_failed_takes)
+  /\ hp_trace w_one_sub (calm_cfg cfg_failed_takes) <> hp_trace w_one_sub cfg_failed_takes.
+Proof. vm_compute. repeat split. discriminate. Qed.
